@@ -70,8 +70,9 @@ def main(args):
         with concurrent.futures.ThreadPoolExecutor(max_workers=jobs) as ex:
             futs = []
             for sid in ids:
-                target = json.load(open(os.path.join(SEEDED, sid, "meta.json"))).get("property", sid[:3])
-                checks = reg if allchecks else ([target] if target in reg else [])
+                meta = json.load(open(os.path.join(SEEDED, sid, "meta.json")))
+                target = meta.get("property", sid[:3])
+                checks = reg if (allchecks or meta.get("expect") == "green") else ([target] if target in reg else [])
                 if not checks:
                     print("%s: target %s has no registered check yet" % (sid, target))
                     continue
@@ -88,6 +89,9 @@ def main(args):
                 print("%s target=%s red=%s%s" % (sid, target, red, (" MACHINERY-ERROR=%s" % broken) if broken else ""))
                 if target in out and out[target].get("exit") != 1:
                     print("   MISSED by %s: %s" % (target, out[target].get("first")))
+                if target == "none" and (red or broken):
+                    for p in red + broken:
+                        print("   FALSE ALARM / BROKEN on a property-preserving change: %s: %s" % (p, out[p].get("first")))
     finally:
         for f in os.listdir(keep):
             shutil.copy(os.path.join(keep, f), evdir)
